@@ -98,12 +98,19 @@ func runSlot(c SlotCase, invoke slotInvoke) (out SlotOut) {
 	parent, cancelParent := context.WithCancel(parent)
 	defer cancelParent()
 
+	pre := c.D.Mode == "pre"
+	recvGate := func() slotCmd {
+		if pre {
+			return slotCmd{}
+		}
+		return <-gate
+	}
 	work := func(ctx context.Context) (int64, int64) {
 		t1 = time.Now()
 		dlSeen, hasDl = ctx.Deadline()
 		close(hStarted)
 		for _, st := range c.Steps {
-			cmd := <-gate
+			cmd := recvGate()
 			if cmd.selfCancel {
 				cancelParent()
 				for j := 0; j < cmd.yield; j++ {
@@ -122,7 +129,7 @@ func runSlot(c SlotCase, invoke slotInvoke) (out SlotOut) {
 				acks <- slotAck{obs: []any{"none"}}
 			}
 		}
-		cmd := <-gate
+		cmd := recvGate()
 		if cmd.selfCancel {
 			cancelParent()
 			for j := 0; j < cmd.yield; j++ {
@@ -138,6 +145,11 @@ func runSlot(c SlotCase, invoke slotInvoke) (out SlotOut) {
 		return slotNum(c.Fin[1]), slotNum(c.Fin[2])
 	}
 
+	if pre {
+		// the Done event precedes everything; the work runs ungated: the wrapper may
+		// enter its select with several cases ready
+		cancelParent()
+	}
 	go func() {
 		defer func() {
 			sPanic = recover()
@@ -219,6 +231,27 @@ func runSlot(c SlotCase, invoke slotInvoke) (out SlotOut) {
 		return
 	}
 
+	if pre {
+		emitD()
+		returned := sSeen || sReturned(slotWait)
+		for !hEnded {
+			select {
+			case a := <-acks:
+				emit("H")
+				out.HObs = append(out.HObs, a.obs)
+				hEnded = a.ended
+			case <-time.After(5 * time.Second):
+				out.Err = "work stuck (ungated run)"
+				return
+			}
+		}
+		if !returned {
+			returned = sReturned(slotWait)
+		}
+		if returned && !sSeen {
+			emitS()
+		}
+	}
 	// a bailing context check ends the work in the same step (the model's WCheck
 	// publishes the bail-out result at once)
 	for i := 0; !hEnded; i++ {
